@@ -17,6 +17,9 @@ CHECKS = {
  "C13": (MC, "exhaustive enumeration of request histories sent as bytes through the real switch stack, replies decoded by an independent wire decoder and compared with a reference model",
          "All sequences of <=3 (quick) / <=4 (thorough) requests over 36 controller-to-switch messages (every message and stats type, valid and invalid arguments), each history run message-by-message and as one read, plus a covering history with every ordered pair; every reply is checked for count, xid, order, type/code and state-dependent data.",
          "Trusts mc/refs/ofwire.py (spec transcription) and the 20-line state model; error codes asserted only where the specification names one; error data compared on header+length only.", "DESIGN.md 4 C13"),
+ "C18": (MC, "explicit-state breadth-first search with state matching over operation histories on the real switch (replay-based), reference dict of outstanding buffers",
+         "Every reachable state within <=6 (quick) / <=8 (thorough) operations {miss, send-to-controller flows with 3 max_len values, packet_out/flow_mod with live, stale and bogus buffer ids, set_config} for pool sizes 0..3 / 0..4 is expanded once; uniqueness, content, release-once, capacity and packet-in length rules are checked on every transition.",
+         "State key = whole buffer pool + config + model, so merging is sound; frames use an opaque ethertype; trusts mc/refs/ofwire.py.", "DESIGN.md 4 C18"),
 }
 
 PENDING_REASON = "check under construction in this round (design in DESIGN.md section 4); not claimed until its harness is committed and silent on the unchanged tree"
